@@ -5,6 +5,7 @@ import CbiVerif.Drv.C06
 import CbiVerif.Drv.Dups
 import CbiVerif.Drv.DbPath
 import CbiVerif.Drv.Exclude
+import CbiVerif.Drv.C08
 /-! Native JSON-lines driver: one request object per line, one reply per line.
 Each area registers its ops in `CbiVerif/Drv/<Area>.lean`. -/
 open Lean
@@ -15,7 +16,8 @@ def handlerTable : List (String × (Json → Json)) :=
   CbiVerif.Drv.C06.handlers ++
   CbiVerif.Drv.Dups.handlers ++
   CbiVerif.Drv.DbPath.handlers ++
-  CbiVerif.Drv.Exclude.handlers
+  CbiVerif.Drv.Exclude.handlers ++
+  CbiVerif.Drv.C08.handlers
 
 def handle (j : Json) : Json :=
   match j.getObjValAs? String "op" with
